@@ -322,7 +322,9 @@ PROPS = {
     },
     "C12": {
         "engines": [tree_engine("c12", ("C12",), None, 1400, 14000), ctrl_engine("", ("C12",), 400, 6000),
-                    tree_engine("step,burst,stall,overflow", ("C12",), None, 600, 8000)],
+                    tree_engine("step,burst,stall,overflow", ("C12",), None, 600, 8000),
+                    {"go": "lister", "bin": "kconc", "driver": "lister", "actions": ("scenario", "lcfg", "llist", "lconsume", "end"),
+                     "classify": ctrl_cls(("C12",)), "nontrivial": lambda l: l.startswith("(lstop"), "resets": ["scenario"]}],
         "rule": "tree engine mode c12: shutdown-point enumeration — a workload (attach / events / Refilter / relist / bursts) shared by 14 "
                 "consecutive scenarios, the trigger {Close, 4 concurrent Close, context cancel} fired after step 0..13, every API call "
                 "{Subscribe*, Clone*, Refilter, Cache().List/Get, Close} of every node issued concurrently with the trigger and again after "
